@@ -3,6 +3,7 @@
 //! case:  op | inputs for the Lean model | implementation result | oracle verdict
 mod util;
 mod c01;
+mod c03;
 mod c04;
 mod c05;
 mod c12;
@@ -28,6 +29,7 @@ fn main() {
     let mut rng = Rng::new(seed ^ (prop.bytes().fold(0u64, |a, b| a.wrapping_mul(131).wrapping_add(b as u64))));
     match prop {
         "C01" => c01::run(&mut rng, n),
+        "C03" => c03::run(&mut rng, n),
         "C04" => c04::run(&mut rng, n),
         "C05" => c05::run(&mut rng, n),
         "C12" => {
